@@ -190,6 +190,7 @@ def run_case(ck, desc):
     if int(desc["u"][2] * 1000) % 6 == 0:
         # the two-phase constructor on tables it cannot use as they stand: the caller's tables stay as they were
         tables.probe_from_table_error_path(ck, desc, int(desc["u"][2] * 1e6))
+        tables.probe_from_table_coarse_heavy_oil(ck, desc, int(desc["u"][2] * 1e6))
     return _run_case(ck, desc)
 
 
